@@ -323,7 +323,17 @@ func (b *builder) sinCosPi() {
 	}
 }
 
+func (b *builder) derivDomain() {
+	for _, c := range [][2]float64{{-1, 2}, {0, 2}, {2, -1}, {0.5, -0.25}} {
+		o := sp.GammaPfirstDerivative(c[0], c[1])
+		an := &Anchor{Fam: "igamma-deriv", Label: "dom:outside", Fn: "GammaPDerivDomain", H: int(2 * c[0]), x: c[1], obs: o, ref: math.NaN(),
+			Desc: fmt.Sprintf("GammaPfirstDerivative(%v, %v): outside the domain, NaN specified", c[0], c[1])}
+		b.exactAnchor(an, math.IsNaN(o))
+	}
+}
+
 func (b *builder) round3() {
+	b.derivDomain()
 	b.besselDomain()
 	b.digamma3Quarter()
 	b.polygammaNegHalf()
